@@ -110,4 +110,35 @@ def exGpgFlag : RunArgs :=
 example : runStatus exEmptyKey .success = 2 := by decide
 example : runStatus exGpgFlag .success = 0 := by decide
 
+
+/-! ## in-toto-sign: signature list and output file -/
+
+/-- After in-toto-sign a key id is in the signature list iff it was given, or it
+was there before and `--append` was used (C09: sign = replace, append). -/
+theorem sign_keyids_mem (append : Bool) (present given : List Str) (k : Str) :
+    k ∈ signKeyids append present given ↔ (append = true ∧ k ∈ present) ∨ k ∈ given := by
+  unfold signKeyids
+  cases append <;> simp
+
+/-- Without `--append` nothing of the old list survives; with it the old entries keep their order and
+position in front of the new ones. -/
+theorem sign_keyids_replace (present given : List Str) : signKeyids false present given = given := by
+  simp [signKeyids]
+
+theorem sign_keyids_append (present given : List Str) : signKeyids true present given = present ++ given := by
+  simp [signKeyids]
+
+/-- A layout is signed in place unless an output path is given; a link goes to the file
+named after its step and the last signing key. -/
+theorem sign_out_layout (file : Str) (k : Option Str) : signOutPath none file .layout k = some file := rfl
+
+theorem sign_out_link (file name k : Str) :
+    signOutPath none file (.link name) (some k) = some (name ++ '.' :: trunc8 k ++ lit ".link") := rfl
+
+theorem sign_out_given (o file : Str) (kind : PayloadKind) (k : Option Str) (h : o ≠ []) :
+    signOutPath (some o) file kind k = some o := by
+  cases o with
+  | nil => exact absurd rfl h
+  | cons c cs => simp [signOutPath, truthyStr]
+
 end InToto
